@@ -227,6 +227,41 @@ fn summarize(sm: &Submessage) -> SubSummary {
     SubmessageBody::Interpreter(InterpreterSubmessage::InfoSource(d, _)) => {
       s.payload = d.guid_prefix.as_ref().to_vec();
     }
+    SubmessageBody::Interpreter(InterpreterSubmessage::InfoReply(ir, _)) => {
+      // [n unicast, (kind, port)*, n multicast or -1, (kind, port)*]; addresses in payload
+      let mut put = |l: &Locator, nums: &mut Vec<i64>, pl: &mut Vec<u8>| match l {
+        Locator::UdpV4(a) => {
+          nums.push(1);
+          nums.push(a.port() as i64);
+          pl.extend_from_slice(&[0u8; 12]);
+          pl.extend_from_slice(&a.ip().octets());
+        }
+        Locator::UdpV6(a) => {
+          nums.push(2);
+          nums.push(a.port() as i64);
+          pl.extend_from_slice(&a.ip().octets());
+        }
+        _ => {
+          nums.push(-99);
+        }
+      };
+      let mut nums = vec![ir.unicast_locator_list.len() as i64];
+      let mut pl = vec![];
+      for l in &ir.unicast_locator_list {
+        put(l, &mut nums, &mut pl);
+      }
+      match &ir.multicast_locator_list {
+        None => nums.push(-1),
+        Some(m) => {
+          nums.push(m.len() as i64);
+          for l in m {
+            put(l, &mut nums, &mut pl);
+          }
+        }
+      }
+      s.nums = nums;
+      s.payload = pl;
+    }
     _ => {}
   }
   s
@@ -297,7 +332,37 @@ fn sub_equal(a: &Submessage, b: &Submessage) -> Result<(), String> {
 
 fn gen_submessage(r: &mut R, out: &mut Vec<Submessage>) {
   let e = endian(r);
-  match r.below(12) {
+  match r.below(13) {
+    12 => {
+      // INFO_REPLY has no builder (the implementation only receives it): built from the struct, flags by hand
+      let loc = |r: &mut R| -> Locator {
+        let port = 1 + (r.next() % 65535) as u16;
+        if r.chance(2, 3) {
+          Locator::UdpV4(std::net::SocketAddrV4::new(std::net::Ipv4Addr::new(10, r.next() as u8, r.next() as u8, 1 + (r.next() % 250) as u8), port))
+        } else {
+          let b = r.bytes(16);
+          let mut a = [0u8; 16];
+          a.copy_from_slice(&b);
+          a[0] = 0xfd;
+          Locator::UdpV6(std::net::SocketAddrV6::new(std::net::Ipv6Addr::from(a), port, 0, 0))
+        }
+      };
+      let nu = r.below(4);
+      let unicast: Vec<Locator> = (0..nu).map(|_| loc(r)).collect();
+      let multicast: Option<Vec<Locator>> = if r.chance(1, 2) { let nm = r.below(3); Some((0..nm).map(|_| loc(r)).collect()) } else { None };
+      let mut f = BitFlags::<INFOREPLY_Flags>::from_endianness(e);
+      if multicast.is_some() {
+        f |= INFOREPLY_Flags::Multicast;
+      }
+      let ir = InfoReply { unicast_locator_list: unicast, multicast_locator_list: multicast };
+      // the length the implementation's own serializer gives the body (whoever builds a Submessage by hand does this)
+      let body_len = ir.write_to_vec_with_ctx(e).map_or(0, |b| b.len());
+      out.push(Submessage {
+        header: SubmessageHeader { kind: SubmessageKind::INFO_REPLY, flags: f.bits(), content_length: body_len as u16 },
+        body: SubmessageBody::Interpreter(InterpreterSubmessage::InfoReply(ir, f)),
+        original_bytes: None,
+      });
+    }
     0 | 1 => {
       // DATA through the builder the Writer uses
       let wguid = GUID::new(GuidPrefix::new(&r.bytes(12)), eid(r));
